@@ -366,10 +366,12 @@ async fn keepalive(sink: MqttSink, timeout: Seconds) {
     loop {
         sleep(keepalive).await;
 
-        if !sink.is_open() || !sink.ping() {
+        if !sink.is_open() {
             // connection is closed
             log::debug!("mqtt client connection is closed, stopping keep-alive task");
             break;
         }
+        // ping is refused while a publish payload is being streamed, try again next period
+        let _ = sink.ping();
     }
 }
